@@ -119,6 +119,22 @@ def judge_chain(ops_in: list[Any], result: Any, scalars: list[float], tags: list
                 if hs[0] != want:
                     LOG.violation('C07', mon, f'scalar/position-{"wide" if wide else "tall"}',
                                   f'scalar factor at position {hs[0]} of {len(ops)}, expected {want} (the side with fewer elements)', **ctx)
+    vanishing = ('inverse/', 'index/P@PT', 'pack/', 'reshape/', 'moveaxis/')
+    inert_classes = ('DenseBlockDiagonalOperator', 'DiagonalOperator', 'SymmetricBandToeplitzOperator', 'BroadcastDiagonalOperator')
+    if len(tags) == 1 and tags[0].startswith(vanishing) and n_in == 0:
+        pattern_ops = [o for o in ops_in if name(o) not in inert_classes]
+        stable = True
+        if tags[0].startswith('inverse/'):
+            # only required when the operand is returned unchanged by its own reduce() (X.I.operator is X afterwards)
+            inv = [o for o in pattern_ops if hasattr(o, 'operator')]
+            stable = len(inv) == 1 and all(o.reduce() is o for o in pattern_ops if o is not inv[0]) and any(inv[0].operator is o for o in pattern_ops)
+        if len(pattern_ops) == 2 and stable:       # the two operands of the pattern, everything else is inert: nothing else can fire
+            expected = len(ops_in) - 2
+            got_len = 0 if (len(ops) == 1 and name(ops[0]) == 'IdentityOperator') else len(ops)
+            LOG.count('C07.vanishing', tags[0].split('/')[0])
+            if got_len != expected:
+                LOG.violation('C07', mon, f'vanishing/{tags[0].split("/")[0]}',
+                              f'the pattern must disappear ({len(ops_in)} -> {expected} operands) but {got_len} remain', **ctx)
     for pos, (l, r) in enumerate(zip(ops[:-1], ops[1:])):
         what = residue(l, r)
         if what:
@@ -129,15 +145,17 @@ def judge_chain(ops_in: list[Any], result: Any, scalars: list[float], tags: list
 def case(rng: Any, ctx: Ctx, index: int) -> None:
     gen.begin_case(rng)
     names = sorted(patterns.PATTERNS)
+    rr = [('blocks', f) for f in range(4)] + [(n, None) for n in names if n != 'blocks']
     k = 1 + int(rng.integers(3) == 0) + int(rng.integers(6) == 0)
     maxctx = 14 if ctx.thorough else 6
 
     def build() -> Any:
         segs, tags = [], []
         for j in range(k):
-            nm = names[(index // max(1, ctx.nshards)) % len(names)] if j == 0 else names[int(rng.integers(len(names)))]
-            if nm == 'blocks' and j == 0:
-                tag, seg = patterns.p_blocks(rng, (index // max(1, ctx.nshards)) // len(names))
+            slot = (index // max(1, ctx.nshards)) % len(rr)
+            nm, form = rr[slot] if j == 0 else (names[int(rng.integers(len(names)))], None)
+            if nm == 'blocks' and form is not None:
+                tag, seg = patterns.p_blocks(rng, form)
             else:
                 tag, seg = patterns.PATTERNS[nm](rng)
             segs.append(seg)
